@@ -106,6 +106,8 @@ def ffc_wf(c, n, *vals):
 def ffcp_pack(c):
     s = c.param("self", T.obj("FFCDHParameters", key_length=T.Int, field_order=T.Int, generator=T.Int))
     n, p, g = (s.fields[k] for k in ("key_length", "field_order", "generator"))
+    if not c.verifying and all(isinstance(v, int) for v in (n, p, g)):
+        c.inline_instead()  # a literal group (load_key's default): the body computes the literal bytes
     c.requires(ffc_wf(c, n, p, g), "well-formed")
     c.returns(ffcdh_parameters_rope(c, n, p, g))
     c.raises_only(set())
